@@ -156,12 +156,24 @@ def property_assumptions(pid):
     return rc == 0, thms, blocks, cmd, out
 
 
-def shard_run(exe, family, lines, timeout=3000, env=None):
-    """run `exe family` over the case lines in parallel shards; returns {id: observation}"""
+def shard_run(exe, family, lines, timeout=3000, env=None, group=None):
+    """run `exe family` over the case lines in parallel shards; returns {id: observation}.
+    group(line) -> key keeps lines with one key in one shard (lets a driver cache per-key work)"""
     if not lines:
         return {}
     n = max(1, min(NCPU, len(lines) // 8 + 1))
-    shards = [lines[i::n] for i in range(n)]
+    if group:
+        shards = [[] for _ in range(n)]
+        keys = {}
+        for l in lines:
+            k = group(l)
+            if k not in keys:
+                keys[k] = min(range(n), key=lambda i: len(shards[i]))
+            shards[keys[k]].append(l)
+        shards = [s for s in shards if s]
+        n = len(shards)
+    else:
+        shards = [lines[i::n] for i in range(n)]
 
     def one(sh_lines):
         p = subprocess.run([exe, family], input=("\n".join(sh_lines) + "\n").encode(),
@@ -333,8 +345,9 @@ def run_correspondence(res, family, cases, prop, corr_name=None):
     classify(case, obs, why) -> known-finding key or None."""
     corr_name = corr_name or ("correspondence model<->code, family " + family)
     lines = ["%s %s" % (c["id"], c["line"]) for c in cases]
+    grp = getattr(prop, "shard_group", None)
     go = shard_run(os.path.join(BUILD, "hcdrv"), family, lines)
-    mo = shard_run(os.path.join(BUILD, "modelrun"), family, lines)
+    mo = shard_run(os.path.join(BUILD, "modelrun"), family, lines, group=grp)
     known = {k["key"]: k for k in load_known() if k.get("property") == res.pid and k.get("state") == "known"}
     disagreements = 0
     first_dis = None
